@@ -150,6 +150,19 @@ def check_case(ctx, case):
             # is_zero() is about exact zero of value AND fluctuations; the generated obs has non-zero fluctuations
             if bool(got) != bool(abs(v) <= n * d):
                 probs.append(('violation', 'view-zero-within-error', 'value %r error %r sigma %d: %r' % (v, d, n, got)))
+        # the same question at a small overall scale (quantities in physical units): value and error scaled down together
+        f_ = 1e-11 / max(abs(v), d, 1e-300)
+        if d * f_ > 1e-300 and abs(v) * f_ > 0:
+            ot = pe.pseudo_Obs(v * f_, d * f_, 'q', samples=50)
+            ot.gamma_method(S=0)
+            for n in (1, 3):
+                got = ot.is_zero_within_error(n)
+                if bool(got) != bool(abs(ot.value) <= n * ot.dvalue):
+                    small = abs(ot.value) <= 1e-10 and float(np.max(np.abs(ot.deltas['q']))) <= 1e-10
+                    # known finding: below the absolute tolerance 1e-10 of `is_zero` value and error are not looked at
+                    probs.append(('violation', 'zero-within-error-absolute-tolerance' if (small and got) else 'view-zero-within-error',
+                                  'value %r error %r sigma %d: %r' % (float(ot.value), float(ot.dvalue), n, got)))
+                    break
         c = pe.Corr([make_obs(v, d), None, make_obs(w, 2 * d)])
         x, y, e = c.plottable()
         if x != [0, 2] or y != [v, w] or e != [d, 2 * d]:
@@ -240,5 +253,5 @@ def run(ctx):
         ctx.case(case)
         for (kind, key, info) in check_case(ctx, case):
             (ctx.violation if kind == 'violation' else ctx.disagree)(key, {'case': case, 'info': info})
-        if len(ctx.violations) + len(ctx.disagreements) > 25:
+        if len([v for v in ctx.violations if v[0] != 'zero-within-error-absolute-tolerance']) + len(ctx.disagreements) > 25:
             break
